@@ -224,7 +224,7 @@ def _batch(modname, seed, indices, opts, sample_every, batch_limit_s):
                         continue
                     seen.add(v.ident())
                     agg["violations"].append(
-                        {"index": index, "v": v.as_dict(), "record": tape.snapshot()}
+                        {"index": index, "v": v.as_dict(), "record": tape.snapshot(), "batch_first": indices[0]}
                     )
         if gc_was and not gc.isenabled():
             gc.enable()
@@ -405,9 +405,18 @@ def do_replay(mod, path, opts):
     tape = Tape(streams=streams, trace=True)
     o = dict(opts)
     o.update(data.get("opts") or {})
+    pre = data.get("prelude") or {}
+    for idx in pre.get("runs", []):
+        try:
+            _run_index(mod, pre["VERIF_SEED"], idx, o)
+        except Exception:
+            pass
     o["want_sample"] = True
     out = guarded_run(mod, tape, o)
     print(f"replay property={mod.ID} file={path}")
+    if pre.get("runs"):
+        print(f"prelude: runs {pre['runs']} of VERIF_SEED {pre['VERIF_SEED']} were executed first in this process "
+              "(the violation needs state they leave behind in the code under test)")
     print("decoded case:")
     print(json.dumps(out.sample, indent=1, default=repr)[:20000])
     if not out.violations:
@@ -619,6 +628,11 @@ def main(modname, argv=None):
                     except OSError:
                         pass
                 if not ok:
+                    path = _with_prelude(mod, args, opts, cands[0], ident)
+                    if path is not None:
+                        reported.append((ident, path))
+                        ok = True
+                if not ok:
                     unreproduced.append(
                         f"violation {ident} seen in runs {[v['index'] for v in cands]} did not reproduce from its replay file in a fresh process"
                     )
@@ -708,7 +722,7 @@ def _digests(modname, mod, args, opts):
     return 0
 
 
-def _write_replay(mod, args, opts, viol, rec, info):
+def _write_replay(mod, args, opts, viol, rec, info, prelude=None):
     tape = Tape(streams=rec, trace=True)
     o = dict(opts)
     o["want_sample"] = True
@@ -734,10 +748,56 @@ def _write_replay(mod, args, opts, viol, rec, info):
         "decoded": decoded,
         "violation": vdict,
     }
+    if prelude:
+        data["prelude"] = {
+            "note": "the violation needs state that earlier runs of the same process left behind in the code under "
+                    "test: these runs (regenerated from VERIF_SEED and their index) are executed first, then the tape",
+            "VERIF_SEED": args.seed, "runs": list(prelude)}
     path = replay_path(mod.ID, rec, (viol["v"]["kind"], viol["v"]["key"]))
     with open(path, "w") as f:
         json.dump(data, f, indent=1, default=repr)
     return path
+
+
+def _with_prelude(mod, args, opts, viol, ident):
+    """The violation does not replay from its own tape.  Find a (short) list of earlier run indices of the same
+    seed after which, in one fresh process, it does.  Returns the path of a verified replay file, or None."""
+    index = viol["index"]
+    info = {"minimised": False, "evals": 0, "note": "tape kept unshrunk; the prelude was shortened instead"}
+    tried = set()
+    for lo in (viol.get("batch_first", index), max(args.start, index - 400), max(args.start, index - 4000)):
+        if lo >= index or lo in tried:
+            continue
+        tried.add(lo)
+        runs = list(range(lo, index))
+
+        def ok_with(r):
+            info["evals"] += 1
+            path = _write_replay(mod, args, opts, viol, viol["record"], info, prelude=r)
+            return path if _verify_replay(mod, path, ident) else None
+
+        path = ok_with(runs)
+        if path is None:
+            continue
+        # shortest suffix that still does it (binary search; not monotone in general, so every step is verified)
+        a, b = 0, len(runs) - 1           # invariant: runs[a:] works
+        while a < b:
+            mid = (a + b + 1) // 2
+            if ok_with(runs[mid:]):
+                a = mid
+            else:
+                b = mid - 1
+        runs = runs[a:]
+        # then drop single runs while that keeps it failing
+        i = 1
+        while i < len(runs) and len(runs) <= 40 and info["evals"] < 120:
+            cand = runs[:i] + runs[i + 1:]
+            if ok_with(cand):
+                runs = cand
+            else:
+                i += 1
+        return ok_with(runs)
+    return None
 
 
 def _verify_replay(mod, path, ident):
